@@ -115,6 +115,11 @@ type Client struct {
 	// killLock serialises calls to Kill.
 	killLock sync.Mutex
 
+	// startAttempted is set once Start has gone as far as creating the
+	// runner; startErr is the error of that attempt, if it failed.
+	startAttempted bool
+	startErr       error
+
 	unixSocketCfg UnixSocketConfig
 
 	grpcMuxerOnce sync.Once
@@ -625,6 +630,17 @@ func (c *Client) Start() (addr net.Addr, err error) {
 		return c.reattach()
 	}
 
+	// A client launches its plugin at most once. If an earlier call got as far
+	// as launching and then failed, report that failure again instead of
+	// launching a second process (and a second socket directory) next to
+	// whatever the first attempt left running.
+	if c.startAttempted {
+		if c.startErr == nil {
+			return nil, errors.New("plugin was already launched by an earlier Start that did not complete")
+		}
+		return nil, c.startErr
+	}
+
 	if c.config.VersionedPlugins == nil {
 		c.config.VersionedPlugins = make(map[int]PluginSet)
 	}
@@ -707,6 +723,13 @@ func (c *Client) Start() (addr net.Addr, err error) {
 	if c.unixSocketCfg.Group != "" {
 		cmd.Env = append(cmd.Env, fmt.Sprintf("%s=%s", EnvUnixSocketGroup, c.unixSocketCfg.Group))
 	}
+
+	c.startAttempted = true
+	defer func() {
+		if err != nil {
+			c.startErr = err
+		}
+	}()
 
 	var runner runner.Runner
 	switch {
